@@ -19,7 +19,7 @@ def _init():
 
 
 def _job(args):
-    spec, seed, preempt, mons, want_trace, prefix, acc = args
+    spec, seed, preempt, mons, want_trace, prefix, acc, acc_log = args
     from . import monitors, scen
     t0 = time.time()
     run = scen.run_spec(spec, seed=seed, prefix=prefix, preempt=preempt)
@@ -37,9 +37,10 @@ def _job(args):
             res["violations"].append({"monitor": m, "kind": "monitor-crash", "what": traceback.format_exc()[-1500:]})
     if acc is not None:
         from . import render
-        lines, idx = render.render(run.trace, log_size=spec.get("log_size", 0), hidden=acc, end_t=run.now)
+        lines, idx = render.render(run.trace, log_size=spec.get("log_size", 0) if acc_log is None else acc_log, hidden=acc, end_t=run.now,
+                                   snapshots=acc_log is None)
         try:
-            out = core.run_driver("accept", lines, timeout=600)
+            out = core.run_driver("accept", lines, timeout=180)
             res["accept"] = out[0] if out else "NO-OUTPUT"
         except Exception as e:  # noqa: BLE001
             res["accept"] = f"DRIVER-ERROR {e}"
@@ -69,10 +70,10 @@ def pool():
     return _pool
 
 
-def explore(jobs, mons, want_trace=False, accept=None):
+def explore(jobs, mons, want_trace=False, accept=None, accept_log_size=None):
     """jobs: list of (spec, seed, preempt[, prefix]).  accept: None (no acceptor) or list of hidden output kinds.
     Returns list of results in order."""
-    args = [(j[0], j[1], j[2], mons, want_trace, j[3] if len(j) > 3 else None, accept) for j in jobs]
+    args = [(j[0], j[1], j[2], mons, want_trace, j[3] if len(j) > 3 else None, accept, accept_log_size) for j in jobs]
     return pool().map(_job, args, chunksize=max(1, len(args) // 64))
 
 
